@@ -401,7 +401,8 @@ func convertReflectTypeToSchemaWithDepth(t reflect.Type, maxDepth int) *openapi3
 // convertTypeWithDepthLimit converts any type with depth tracking.
 func convertTypeWithDepthLimit(t reflect.Type, visited map[reflect.Type]*openapi3.Schema, depth int) *openapi3.Schema {
 	if depth <= 0 {
-		schema := openapi3.NewObjectSchema()
+		// The expansion is cut here: whatever the type is, its values must still be accepted.
+		schema := &openapi3.Schema{}
 		schema.Description = "Depth limit reached"
 		return schema
 	}
